@@ -34,7 +34,7 @@ def sh(cmd, cwd=None, env=None, timeout=None, check=True, stdout=subprocess.PIPE
 class TLCResult:
     def __init__(self, out, rc, wall):
         self.out, self.rc, self.wall = out, rc, wall
-        m = re.findall(r"(\d+) states generated, (\d+) distinct states found, (\d+) states left", out)
+        m = re.findall(r"\b(\d+) states generated, (\d+) distinct states found, (\d+) states left", out)   # \\b: long digit runs in VEC lines made the unanchored pattern quadratic
         self.generated = int(m[-1][0]) if m else 0
         self.distinct = int(m[-1][1]) if m else 0
         self.left = int(m[-1][2]) if m else 0
@@ -194,6 +194,10 @@ class Check:
         jopts = ["-Xss512m", "-Xmx%dg" % heap_gb, "-XX:+UseParallelGC", "-XX:ParallelGCThreads=%d" % (2 if workers <= 2 else 4)]
         if deque:
             jopts.append("-Dtlc2.tool.queue.IStateQueue=StateDeque")
+        # TLC makes a temporary directory per run: keep it inside the scratch directory (wiped with it), not in /tmp
+        jtmp = os.path.join(d, "jtmp")
+        os.makedirs(jtmp, exist_ok=True)
+        jopts.append("-Djava.io.tmpdir=" + jtmp)
         cmd = ["timeout", "-k", "10", str(timeout), "java"] + jopts + ["-cp", "%s:%s:%s" % (TLAJAR, CMJAR, d), "tlc2.TLC",
                "-workers", str(workers), "-metadir", md, "-noGenerateSpecTE", "-config", module + ".cfg"] + list(args) + [module]
         t = time.time()
